@@ -14,6 +14,111 @@ use std::thread::{self, JoinHandle};
 use alloc_tracker::{Allocator, ProcessSpan, Report, Session, ThreadSpan};
 use vrt::{json, Rng, Tracer, Value};
 
+// ------------------------------------------------------------------------------------------ gate allocator (the harness's own)
+
+/// The harness process's global allocator: System, except that a thread can ask to be PARKED inside its n-th allocation
+/// from now on (command `oprace`).  alloc_tracker's bookkeeping (Session::operation, spans, reports) allocates through
+/// the global allocator, so this places one thread at a chosen point INSIDE such a call with no hook in the crate.
+struct GateAlloc;
+
+thread_local! {
+    /// 0 = not armed; k > 0: the k-th allocation of this thread from now parks
+    static PARK_AT: std::cell::Cell<u32> = const { std::cell::Cell::new(0) };
+}
+static PARKED: std::sync::atomic::AtomicBool = std::sync::atomic::AtomicBool::new(false);
+static RELEASE: std::sync::atomic::AtomicBool = std::sync::atomic::AtomicBool::new(false);
+
+fn gate() {
+    let hit = PARK_AT.try_with(|c| {
+        let k = c.get();
+        if k == 0 {
+            return false;
+        }
+        c.set(k - 1);
+        k == 1
+    });
+    if hit == Ok(true) {
+        PARKED.store(true, Ordering::SeqCst);
+        while !RELEASE.load(Ordering::SeqCst) {
+            std::thread::yield_now();
+        }
+    }
+}
+
+// SAFETY: forwards to System unchanged.
+unsafe impl GlobalAlloc for GateAlloc {
+    unsafe fn alloc(&self, layout: Layout) -> *mut u8 {
+        gate();
+        unsafe { System.alloc(layout) }
+    }
+    unsafe fn dealloc(&self, ptr: *mut u8, layout: Layout) {
+        unsafe { System.dealloc(ptr, layout) }
+    }
+    unsafe fn alloc_zeroed(&self, layout: Layout) -> *mut u8 {
+        gate();
+        unsafe { System.alloc_zeroed(layout) }
+    }
+    unsafe fn realloc(&self, ptr: *mut u8, layout: Layout, new_size: usize) -> *mut u8 {
+        gate();
+        unsafe { System.realloc(ptr, layout, new_size) }
+    }
+}
+
+#[global_allocator]
+static GLOBAL: GateAlloc = GateAlloc;
+
+/// oprace <out> <max n>: for n = 1..max: thread A calls session.operation("x") and is parked inside its n-th allocation;
+/// thread B then calls operation("x") for the same new name and records a span (it may have to wait for A, if A holds
+/// the session's lock); A is released, finishes and records its span.  Both spans belong to operation "x": the report
+/// must account for both, wherever inside operation() the first caller was overtaken.
+fn oprace(out: &str, max_n: u32) {
+    let tr = Tracer::create(out);
+    for n in 1..=max_n {
+        let session = Arc::new(Session::new().no_stdout().no_file());
+        PARKED.store(false, Ordering::SeqCst);
+        RELEASE.store(false, Ordering::SeqCst);
+        let done_a = Arc::new(std::sync::atomic::AtomicBool::new(false));
+        let (sa, da) = (Arc::clone(&session), Arc::clone(&done_a));
+        let a = thread::spawn(move || {
+            PARK_AT.with(|c| c.set(n));
+            let op = sa.operation("x");
+            PARK_AT.with(|c| c.set(0));
+            drop(op.measure_thread().iterations(1));
+            da.store(true, Ordering::SeqCst);
+        });
+        let t0 = std::time::Instant::now();
+        while !PARKED.load(Ordering::SeqCst) && !done_a.load(Ordering::SeqCst) && t0.elapsed().as_millis() < 2000 {
+            thread::yield_now();
+        }
+        let overtaken = PARKED.load(Ordering::SeqCst);
+        let done_b = Arc::new(std::sync::atomic::AtomicBool::new(false));
+        let (sb, db) = (Arc::clone(&session), Arc::clone(&done_b));
+        let b = thread::spawn(move || {
+            let op = sb.operation("x");
+            drop(op.measure_thread().iterations(1));
+            db.store(true, Ordering::SeqCst);
+        });
+        let t1 = std::time::Instant::now();
+        while !done_b.load(Ordering::SeqCst) && t1.elapsed().as_millis() < 150 {
+            thread::yield_now();
+        }
+        let b_overtook = done_b.load(Ordering::SeqCst);
+        RELEASE.store(true, Ordering::SeqCst);
+        let pa = a.join().is_err();
+        let pb = b.join().is_err();
+        tr.emit(&json!({"ev":"reset","id":n,"tag":{"oprace":n,"a_parked":overtaken,"b_finished_while_a_parked":b_overtook}}));
+        tr.emit(&json!({"ev":"span_start","id":1,"t":1,"kind":"thread","s":1,"o":"x"}));
+        tr.emit(&json!({"ev":"span_end","id":1,"t":1,"iters":1}));
+        tr.emit(&json!({"ev":"span_start","id":2,"t":2,"kind":"thread","s":1,"o":"x"}));
+        let mut last = json!({"ev":"span_end","id":2,"t":2,"iters":1,"rep":[report_json(&session.to_report())]});
+        if pa || pb {
+            last["panic"] = json!("operation() or a span panicked");
+        }
+        tr.emit(&last);
+    }
+    tr.flush();
+}
+
 // ------------------------------------------------------------------------------------------ recording allocator
 
 #[derive(Clone, Debug)]
@@ -576,6 +681,7 @@ fn main() {
     match a.get(1).map(String::as_str) {
         Some("replay") => replay(&a[2], &a[3], a[4].parse().unwrap(), a[5].parse().unwrap()),
         Some("random") => random(&a[2], a[3].parse().unwrap(), a[4].parse().unwrap()),
+        Some("oprace") => oprace(&a[2], a[3].parse().unwrap()),
         Some("conc") => conc(&a[2], a[3].parse().unwrap(), a[4].parse().unwrap(), a[5].parse().unwrap()),
         _ => {
             eprintln!("usage: h_alloc replay|random|conc ...");
